@@ -1825,6 +1825,73 @@ fn main() {
                     item_cfg_owned = cfgeval::Cfg::new(&ents);
                     &item_cfg_owned
                 };
+                // R30 (opt-in by the path form `//@item <file> :: trait T :: fn f`): a PROVIDED (default) method of the trait DEFINITION `T` is
+                // extracted like a free fn item (same sub-directives, same rewrites): only the method's own text (signature + default body) is
+                // emitted; the template supplies the enclosing `trait T { .. }` (or `impl X { .. }`) block around the directive. Logged as
+                // `R30-trait-provided-fn`; a required method (no default body) or an unknown trait / method makes vx exit 2.
+                if idir.path.len() == 2 && idir.path[0].trim().starts_with("trait ") {
+                    let tname = idir.path[0].trim()[6..].trim().to_string();
+                    let fseg = idir.path[1].trim();
+                    let fname = fseg.strip_prefix("fn ").unwrap_or(fseg).trim().to_string();
+                    let mut hit: Vec<&syn::TraitItemFn> = vec![];
+                    fn walk_traits<'x>(items: &'x [Item], tname: &str, fname: &str, cfg: &cfgeval::Cfg, hit: &mut Vec<&'x syn::TraitItemFn>) {
+                        for it in items {
+                            match it {
+                                Item::Trait(t) if t.ident == tname && cfg.attrs_enabled(&t.attrs) => {
+                                    for ti in &t.items {
+                                        if let syn::TraitItem::Fn(x) = ti {
+                                            if x.sig.ident == fname && x.default.is_some() && cfg.attrs_enabled(&x.attrs) {
+                                                hit.push(x);
+                                            }
+                                        }
+                                    }
+                                }
+                                Item::Mod(m) if cfg.attrs_enabled(&m.attrs) => {
+                                    if let Some((_, its)) = &m.content {
+                                        walk_traits(its, tname, fname, cfg, hit);
+                                    }
+                                }
+                                _ => {}
+                            }
+                        }
+                    }
+                    walk_traits(&f.ast.items, &tname, &fname, cfg, &mut hit);
+                    if hit.len() < idir.nth {
+                        die(&format!("provided trait method not found: {} :: trait {} :: fn {}", idir.file, tname, fname));
+                    }
+                    let x = hit[idir.nth - 1];
+                    let mut cx = Ctx { f, cfg, edits: vec![], constfold: vec![], log: vec![] };
+                    let (s, e) = f.range(x.span());
+                    cx.attrs(&x.attrs, (s, e), &[]);
+                    let d = idir.fnd.clone().unwrap_or_default();
+                    if d.external_body {
+                        die("R30: `external_body` on a provided trait method is not supported");
+                    }
+                    process_fn(&mut cx, &x.sig, x.default.as_ref().unwrap(), &d, &format!("{}::{}", tname, fname));
+                    let em = emit(f, s, e, &mut cx.edits);
+                    let gen_start = out_line;
+                    for (k, sl) in em.src_lines.iter().enumerate() {
+                        if *sl > 0 {
+                            linemap.push(serde_json::json!([gen_start + k, idir.file, sl]));
+                        }
+                    }
+                    push(&mut out, &mut out_line, &format!("// @src {}:{}\n", idir.file, f.line_of(s)));
+                    let gen_start = out_line;
+                    push(&mut out, &mut out_line, &em.text);
+                    push(&mut out, &mut out_line, "\n");
+                    items_log.push(serde_json::json!({
+                        "kind": "item", "file": idir.file, "path": idir.path.join(" :: "),
+                        "src_lines": [f.line_of(s), f.line_of(e)], "gen_lines": [gen_start, out_line - 1],
+                        "props": d.props.clone(), "external_body": false,
+                    }));
+                    for ed in &cx.edits {
+                        *rule_counts.entry(ed.rule.to_string()).or_default() += 1;
+                    }
+                    *rule_counts.entry("R30-trait-provided-fn".to_string()).or_default() += 1;
+                    edit_log.extend(cx.log);
+                    constfold.extend(cx.constfold);
+                    continue;
+                }
                 let found: Vec<&Item> =
                     find_in_items(&f.ast.items, &idir.path, f).into_iter().filter(|it| cfg.attrs_enabled(item_attrs(it))).collect();
                 if found.len() < idir.nth {
